@@ -244,6 +244,14 @@ func c02(r *mon.Run) {
 			} else {
 				steps = []gen.Step{c02Steps[(k-S)/S], c02Steps[(k-S)%S]}
 			}
+			for _, st := range steps {
+				if st.K == gen.SStar && n > 64 {
+					// an object wildcard per element multiplies the allowed member orders (2^n result sets): the model
+					// cannot enumerate them, and nothing would be compared; member-order cases live in the other workloads
+					t.Count("skipped: object wildcard over each of more than 64 elements (order explosion in the model)")
+					return
+				}
+			}
 			tree := gen.Chain(gen.Field("a"), steps...)
 			doc := longDoc(n, i%lpat)
 			expr := gen.SpellTight(tree)
